@@ -78,7 +78,8 @@ func TestVerifC05Boundary(t *testing.T) {
 		var valid, over []string
 		if k.IsFloat() {
 			if k == g.Float32 {
-				valid = []string{"3.4028234663852886e+38", "-3.4028234663852886e+38", "1.401298464324817e-45", "0", "0.5", "16777216"}
+				valid = []string{"3.4028234663852886e+38", "-3.4028234663852886e+38", "1.401298464324817e-45", "0", "0.5", "16777216",
+					"3.4028235e+38", "-3.4028235e+38", "1e-45", "0.1"} // incl. the shortest float32 spellings of +-MaxFloat32
 			} else {
 				valid = []string{"1.7976931348623157e+308", "-1.7976931348623157e+308", "5e-324", "0", "0.1", "9007199254740992"}
 			}
